@@ -84,6 +84,14 @@ def pIdx (w : World F) (s : String) : M Nat := do
   if i < w.n then pure i else throw .bad
 
 def runDv (chk : Bool) (toks : List String) : M Unit := do
+  match toks with
+  | ["axlegt", n, k] =>
+    -- `Axle::<n>::get_terminal(k)`: slice indexing, out of range panics
+    let n ← need n.toNat?; let k ← need k.toNat?
+    if n > 8 || k > 1000 then noimpl
+    if k < n then emit "ok" else throw (.panic .oob)
+    return
+  | _ => pure ()
   if !toks.contains "--" then throw .bad
   let (setup, ops) := splitAtDashes toks
   let (w0, devs) ← dvSetup chk setup
@@ -144,7 +152,7 @@ def runWrAct (evs : List String) : M Unit := do
     else if e == "upd" then
       let r := ActuatorWrapper.update w 0 acc iu
       if r.2.1 then nupd := nupd + 1
-      emit s!"{sUpd r.2.2};{match r.1 with | some td => sTd td | none => "-"};{nupd}"
+      emit s!"{sUpd r.2.2};{match r.1 with | some td => sTd td | none => "-"};{nupd};{sTdOut (w.getTerminalData 0)}"
     else
       match ← wrCommon w e with
       | some w' => w := w'
@@ -184,7 +192,7 @@ def runWrPid (chk : Bool) (t0 st cmd : String) (k : PIDK3 F) (evs : List String)
       match r.2.1 with
       | some v => lr := some v
       | none => pure ()
-      emit s!"{sUpd r.2.2};{match r.2.1 with | some v => sF v | none => "-"}"
+      emit s!"{sUpd r.2.2};{match r.2.1 with | some v => sF v | none => "-"};{sOut sF (Cpid.get p.pid)}"
     else
       match ← wrCommon w e with
       | some w' => w := w'
